@@ -444,7 +444,8 @@ pub fn plan(ctx: &Ctx, sz: &Sizes) -> Vec<Stream> {
     }
 
     // 4. seeded random lengths, log-uniform
-    let nrand = if ctx.thorough { 120 } else { 24 };
+    let mult = ctx.opt_u64("mult", 1) as usize;
+    let nrand = if ctx.thorough { 120 } else { 24 } * mult;
     let mut rl = Vec::new();
     for _ in 0..nrand {
         let bits = r.range(1, (63 - (cap as u64).leading_zeros()) as u64);
@@ -457,7 +458,7 @@ pub fn plan(ctx: &Ctx, sz: &Sizes) -> Vec<Stream> {
     }
 
     // 5. pure value trees (small), many
-    let ntree = if ctx.thorough { 40 } else { 8 };
+    let ntree = if ctx.thorough { 40 } else { 8 } * mult;
     for _ in 0..ntree {
         let lens: Vec<usize> = (0..25).map(|_| r.range(20, 600) as usize).collect();
         push(&mut streams, true, lens, &mut r, false);
